@@ -52,6 +52,7 @@ type Term struct {
 	args []*Term
 	id   int32 // SMT definition id within the current solver scope (0 = none)
 	gen  int32 // generation of id
+	h    uint64 // structural hash (0 = not computed)
 }
 
 func (t *Term) IsConst() bool { return t.op == OpConst }
@@ -295,7 +296,128 @@ func Bin(op Op, a, b *Term) *Term {
 			return K(int(w), 0)
 		}
 	}
+	if op == OpOr || op == OpAdd || op == OpXor {
+		if r := mergePieces(a, b); r != nil {
+			return r
+		}
+	}
+	if op == OpShl && b.op == OpConst && (a.op == OpZext || a.op == OpConcat || a.op == OpExtract) {
+		// (zext x) << k  ==> placed slice, kept as zext(concat(x', 0_k))
+		if ps, ok := pieces(a, 0); ok {
+			k := int(b.val)
+			var shifted []piece
+			for _, p := range ps {
+				shifted = append(shifted, piece{p.t, p.sh + k})
+			}
+			if r := assemble(shifted, int(w)); r != nil {
+				return r
+			}
+		}
+	}
 	return &Term{op: op, w: w, args: []*Term{a, b}}
+}
+
+// piece is a term placed at a bit offset; all other bits are zero.
+type piece struct {
+	t  *Term
+	sh int
+}
+
+// pieces decomposes t into disjoint placed slices when its shape allows it.
+func pieces(t *Term, depth int) ([]piece, bool) {
+	if depth > 12 {
+		return nil, false
+	}
+	switch t.op {
+	case OpConst:
+		if t.val == 0 {
+			return nil, true
+		}
+		return []piece{{t, 0}}, true
+	case OpZext:
+		ps, ok := pieces(t.args[0], depth+1)
+		if !ok {
+			return []piece{{t.args[0], 0}}, true
+		}
+		return ps, true
+	case OpConcat:
+		lo, ok1 := pieces(t.args[1], depth+1)
+		hi, ok2 := pieces(t.args[0], depth+1)
+		if !ok1 {
+			lo = []piece{{t.args[1], 0}}
+		}
+		if !ok2 {
+			hi = []piece{{t.args[0], 0}}
+		}
+		out := append([]piece(nil), lo...)
+		for _, p := range hi {
+			out = append(out, piece{p.t, p.sh + int(t.args[1].w)})
+		}
+		return out, true
+	}
+	return []piece{{t, 0}}, true
+}
+
+// assemble builds zext(concat(...)) of width w from disjoint pieces; nil if they overlap or overflow.
+func assemble(ps []piece, w int) *Term {
+	if len(ps) == 0 {
+		return K(w, 0)
+	}
+	// sort by offset (insertion sort; tiny lists)
+	for i := 1; i < len(ps); i++ {
+		for j := i; j > 0 && ps[j].sh < ps[j-1].sh; j-- {
+			ps[j], ps[j-1] = ps[j-1], ps[j]
+		}
+	}
+	var cur *Term
+	pos := 0
+	for _, p := range ps {
+		if p.sh < pos {
+			return nil // overlap
+		}
+		pt := p.t
+		if p.sh+int(pt.w) > w {
+			// truncate what is shifted out
+			keep := w - p.sh
+			if keep <= 0 {
+				continue
+			}
+			pt = Extract(pt, 0, keep)
+		}
+		if p.sh > pos {
+			z := K(p.sh-pos, 0)
+			if cur == nil {
+				cur = z
+			} else {
+				cur = Concat(z, cur)
+			}
+		}
+		if cur == nil {
+			cur = pt
+		} else {
+			cur = Concat(pt, cur)
+		}
+		pos = p.sh + int(pt.w)
+	}
+	if cur == nil {
+		return K(w, 0)
+	}
+	return Zext(cur, w)
+}
+
+// mergePieces combines a|b (or a+b, a^b) when both are disjoint placed slices.
+func mergePieces(a, b *Term) *Term {
+	interesting := func(t *Term) bool { return t.op == OpZext || t.op == OpConcat }
+	if !interesting(a) || !interesting(b) {
+		return nil
+	}
+	pa, ok1 := pieces(a, 0)
+	pb, ok2 := pieces(b, 0)
+	if !ok1 || !ok2 {
+		return nil
+	}
+	all := append(append([]piece(nil), pa...), pb...)
+	return assemble(all, int(a.w))
 }
 
 func Cmp(op Op, a, b *Term) *Term {
@@ -339,6 +461,10 @@ func Cmp(op Op, a, b *Term) *Term {
 	if op == OpEq {
 		if a.op == OpConst {
 			a, b = b, a
+		}
+		// card(x) = 0  <=>  x = 0 (axiom of the cardinality function)
+		if b.op == OpConst && b.val == 0 && a.op == OpUF && a.name == "card" {
+			return Cmp(OpEq, a.args[0], K(int(a.args[0].w), 0))
 		}
 		if b.op == OpConst && a.op == OpIte && a.args[1].op == OpConst && a.args[2].op == OpConst {
 			t1 := a.args[1].val == b.val
@@ -842,4 +968,49 @@ func (t *Term) CollectVars(into map[string]uint8) {
 		}
 	}
 	rec(t)
+}
+
+// Hash returns a structural hash of the term.
+func (t *Term) Hash() uint64 {
+	if t.h != 0 {
+		return t.h
+	}
+	h := uint64(1469598103934665603)
+	mix := func(v uint64) {
+		h ^= v
+		h *= 1099511628211
+	}
+	mix(uint64(t.op))
+	mix(uint64(t.w))
+	mix(t.val)
+	for i := 0; i < len(t.name); i++ {
+		mix(uint64(t.name[i]))
+	}
+	for _, a := range t.args {
+		mix(a.Hash())
+	}
+	if h == 0 {
+		h = 1
+	}
+	t.h = h
+	return h
+}
+
+// termEqual reports structural equality.
+func termEqual(a, b *Term) bool {
+	if a == b {
+		return true
+	}
+	if a.op != b.op || a.w != b.w || a.val != b.val || a.name != b.name || len(a.args) != len(b.args) {
+		return false
+	}
+	if a.Hash() != b.Hash() {
+		return false
+	}
+	for i := range a.args {
+		if !termEqual(a.args[i], b.args[i]) {
+			return false
+		}
+	}
+	return true
 }
